@@ -275,14 +275,39 @@ class Recorder:
             return []
 
 
+def option_kw(S, c):
+    """keyword arguments of performSpatiallyAdaptiv for the driver options of configuration c"""
+    kw = {}
+    if c.get('single_step'):
+        kw['single_step'] = True
+    if c.get('recalc'):
+        S['combi'].refinements_for_recalculate = c['recalc']
+        kw['recalculate_frequently'] = True
+    return kw
+
+
+def last_count(events):
+    """single_step bookkeeping at the end of a recorded part: the point count seen before the last refinement (-1: no refinement yet)"""
+    last, np_ = -1, -1
+    for e in events:
+        if e['k'] == 'E':
+            np_ = e['np']
+        elif e['k'] == 'R':
+            last = np_
+    return last
+
+
 def run_once(c, lims, reeval=False, checks=True, evaluation_points=None, max_time=None):
-    """one adaptive run; returns (S, recorder, ret)"""
+    """one adaptive run; returns (S, recorder, ret).  c['single_step'] = single_step option; c['recalc'] = N: recalculate_frequently with
+    refinements_for_recalculate = N (the library's default of 100 is never reached by runs of this size)"""
     S = build(c)
     rec = Recorder(S, lims['tol'], check_comb=checks, ignore_points=evaluation_points or ())
+    kw = {} if max_time is None else {'max_time': max_time}
+    kw.update(option_kw(S, c))
     with impl.quiet(), impl.watchdog(c.get('timeout', 240)):
         ret = S['combi'].performSpatiallyAdaptiv(c['lmin'], c['lmax'], S['ec'], tol=lims['tol'], max_evaluations=lims['max'],
                                                 min_evaluations=lims['min'], print_output=False, reevaluate_at_end=reeval,
-                                                evaluation_points=evaluation_points, **({} if max_time is None else {'max_time': max_time}))
+                                                evaluation_points=evaluation_points, **kw)
     return S, rec, ret
 
 
@@ -295,7 +320,7 @@ def run_again(S, rec, c, lims):
     rec.skip_np = True
     with impl.quiet(), impl.watchdog(c.get('timeout', 240)):
         ret = S['combi'].performSpatiallyAdaptiv(c['lmin'], c['lmax'], S['ec'], tol=lims['tol'], max_evaluations=lims['max'],
-                                                min_evaluations=lims['min'], print_output=False)
+                                                min_evaluations=lims['min'], print_output=False, **option_kw(S, c))
     return ret
 
 
@@ -366,8 +391,8 @@ def limit_grid(probe_events, rng, n):
     return uniq[:n]
 
 
-def to_trace(c, lims, events, origin):
+def to_trace(c, lims, events, origin, last0=-1):
     clean = [{k: v for k, v in e.items() if not k.startswith('_')} for e in events]
-    return {'cfg': {'strategy': c['strategy'], 'minE': int(lims['min']), 'maxE': -1 if lims['max'] is None else int(lims['max'])},
+    return {'cfg': {'strategy': c['strategy'], 'minE': int(lims['min']), 'maxE': -1 if lims['max'] is None else int(lims['max']), 'single': bool(c.get('single_step', False)), 'last0': int(last0)},
             'events': clean, 'origin': origin, '_c': {k: (v if not isinstance(v, float) or v != np.inf else 'inf') for k, v in c.items()},
             '_lims': lims, '_events': events}
